@@ -347,6 +347,7 @@ func runCheck(repo, verif, prop, tier string, seed int, timeout time.Duration, s
 }
 
 func writeEvidence(verif, prop, tier string, seed int, outs []*oblOut, reps []*FuncReport, known []string, wall float64, violations int, bySolver map[string]int, w *World) {
+	// statuses are final here: freeze them so that the counts and the samples of this record agree with each other
 	nObl, nDis := 0, 0
 	var samples []interface{}
 	var solverSecs, maxSecs float64
